@@ -25,6 +25,16 @@ def finish(ctx, mod, status, message, wall, repo, verif, known, verbose=False):
     searched = {}
     if hasattr(mod, 'native_search'):
         for o in list(undecided):
+            if getattr(o, 'structural', False) and hasattr(mod, 'make_replay'):
+                rep = mod.make_replay(ctx, o)
+                if rep:
+                    okr, outr = run_native(rep, repo, verif)
+                    if okr:
+                        o.status, o.backend = REFUTED, 'native-replay'
+                        o.detail = 'structural mismatch of the generated text; reproduced natively with default names'
+                        undecided.remove(o)
+                        refuted.append(o)
+                        continue
             found = _native_search(ctx, mod, o, repo, verif)
             searched[o.id] = found
             if found and found[0]:
